@@ -222,7 +222,7 @@ pub fn replay(a: &Args) {
             if k % stride != 0 {
                 continue;
             }
-            let lay = &layouts[k % nlay];
+            let lay = &layouts[(k / stride) % nlay];
             mo.emit(merge_record(&embed(lay, p1), &embed(lay, p2)));
         }
     }
